@@ -316,6 +316,9 @@ func (w *evWorld) absToken(b []byte) tokInfo {
 		return t
 	}
 	t.Tag = int64(n.Arg)
+	if n.Arg > 1<<30 { // beyond TLC's integers: any value that is not 18
+		t.Tag = 1 << 30
+	}
 	arr := n.Items[0]
 	if arr.Major != 4 || arr.Indef {
 		return t
